@@ -62,6 +62,8 @@ def render_module(m, style="header", comments=False, alt=False):
 
     def plist_entry(p, ansi):
         if alias(p):
+            if len(p[4]) == 1:
+                return ".%s(%s)" % (esc(p[0]).strip(), esc(p[4][0]))
             return ".%s({%s})" % (esc(p[0]).strip(), ", ".join(esc(a) for a in p[4]))
         return "%s %s%s" % (dirs[p[1]], rng(p[2], p[3]), esc(p[0])) if ansi else esc(p[0])
 
@@ -91,18 +93,25 @@ def render_module(m, style="header", comments=False, alt=False):
                 w("  %s %s%s;" % (dirs[p[1]], rng(p[2], p[3]), esc(p[0])))
                 if comments:
                     w("  // after a port declaration")
+    decl = []
     if alt:
         groups = {}
-        for k, x in enumerate(m.get("wires", ())):
+        for x in m.get("wires", ()):
             if len(x) > 3 and x[3]:
-                w("  %s%s %s%s;" % (attrs_text(x[3]), wire_type(k), rng(x[1], x[2]), esc(x[0])))
+                decl.append("  %s%s %s%s;" % (attrs_text(x[3]), wire_type(x), rng(x[1], x[2]), esc(x[0])))
             else:
-                groups.setdefault((wire_type(k), x[1], x[2]), []).append(x[0])
+                groups.setdefault((wire_type(x), x[1], x[2]), []).append(x[0])
         for (t, hi, lo), names in groups.items():
-            w("  %s %s%s;" % (t, rng(hi, lo), ", ".join(esc(x) for x in names)))
+            decl.append("  %s %s%s;" % (t, rng(hi, lo), ", ".join(esc(x) for x in names)))
     else:
         for x in m.get("wires", ()):
-            w("  %swire %s%s;" % (attrs_text(x[3]) if len(x) > 3 and x[3] else "", rng(x[1], x[2]), esc(x[0])))
+            decl.append("  %swire %s%s;" % (attrs_text(x[3]) if len(x) > 3 and x[3] else "", rng(x[1], x[2]), esc(x[0])))
+    if alt != "late":
+        o.extend(decl)
+    if alt and m.get("celldefine"):
+        # simulation code of a primitive: its input/output statements are not ports
+        w("  function f;\n    input fx;\n    f = fx;\n  endfunction")
+        w("  task t;\n    output ty;\n    begin end\n  endtask")
     if comments:
         w("  /* block comment\n     over two lines: gain * / 2, / * and // and ** / inside **/")
         w("  // a line comment with /* inside and a * / pair")
@@ -110,6 +119,8 @@ def render_module(m, style="header", comments=False, alt=False):
         head = attrs_text(x.get("attrs")) + "  " + esc(x["module"])
         if x.get("params") and not alt:
             head += " #(" + ", ".join(".%s(%s)" % kv for kv in x["params"].items()) + ")"
+        elif x.get("empty_params"):
+            head += " #()"
         head += " " + esc(x["name"])
         sep = ", // first comment\n   // second comment in a row\n   /* and a block */ " if comments == "dense" else ", "
         if x.get("positional"):
@@ -124,6 +135,8 @@ def render_module(m, style="header", comments=False, alt=False):
             for n, kv in enumerate((x.get("params") or {}).items()):
                 (o if n == 0 else late).append("  defparam %s.%s = %s;" % ((esc(x["name"]),) + kv))
     o.extend(late)
+    if alt == "late":
+        o.extend(decl)   # nets declared after the instances that use them
     for lhs, rhs in m.get("assigns", ()):
         w("  assign %s = %s;" % (expr_text(lhs), expr_text(rhs)))
     w("endmodule")
@@ -136,8 +149,9 @@ PORT_VAR = {"in": "wire ", "out": "reg "}
 WIRE_TYPES = ("wire", "reg", "tri0", "tri1")
 
 
-def wire_type(k):
-    return WIRE_TYPES[k % len(WIRE_TYPES)]
+def wire_type(x):
+    """net type used for a wire in the other spellings: by shape, so that wires of one shape share a statement."""
+    return "tri0" if x[1] is None else "reg" if x[1] - x[2] == 1 else "tri1"
 
 
 SKIPPED = ("`ifdef NEVER_DEFINED\nmodule ghost (input z);\n  leaf never (.i(z));\nendmodule\n`endif\n\n"
@@ -199,8 +213,8 @@ def cable_types(m, style="header", alt=False):
             for a in (p[4] if len(p) > 4 and p[4] else [p[0]]):
                 if p[1] in PORT_VAR:
                     out[a] = PORT_VAR[p[1]].strip()
-    for k, x in enumerate(m.get("wires", ())):
-        out[x[0]] = wire_type(k) if alt else "wire"
+    for x in m.get("wires", ()):
+        out[x[0]] = wire_type(x) if alt else "wire"
     return out
 
 
